@@ -7,11 +7,11 @@ Import ListNotations.
 (** Which of the repairs /repo has (see [cfg] in Model.v; patches in .work/patches).  All [false] =
     the code as it is.  The correspondence checks and the property files are instantiated with this:
     when a patch is committed to /repo, flip its flag here. *)
-Definition code_fixed : bool := false.        (* f5-encode-err.diff *)
+Definition code_fixed : bool := true.         (* f5-encode-err.diff *)
 Definition code_fix_dup : bool := true.       (* /repo 3b20437: a snapshot name that is in diskData is refused up front *)
-Definition code_fix_rev : bool := false.      (* f10-revert-target.diff *)
+Definition code_fix_rev : bool := true.       (* f10-revert-target.diff *)
 Definition code_fix_commit : bool := false.   (* f11-createdisk-commit.diff *)
-Definition code_fix_children : bool := false. (* f12-children-entry.diff *)
+Definition code_fix_children : bool := true.  (* f12-children-entry.diff *)
 Definition code_cfg (maxlen : nat) : cfg :=
   mkcfg maxlen code_fixed code_fix_dup code_fix_rev code_fix_commit code_fix_children.
 
